@@ -223,6 +223,24 @@ func pjson(role string) []any {
 	return []any{c, r}
 }
 
+// pickable: the parked goroutines the random walk may release. A goroutine the specification does not know (role "g<id>": work
+// the library moved to a goroutine of its own) is starved in half of the runs - released only when nothing else is parked -
+// which is the schedule that exposes deferred cleanup.
+func (wd *world) pickable(starve bool) []*sched.Gate {
+	var res, foreign []*sched.Gate
+	for _, g := range wd.ctl.Parked() {
+		if strings.HasPrefix(g.Role, "g") {
+			foreign = append(foreign, g)
+		} else {
+			res = append(res, g)
+		}
+	}
+	if !starve || len(res) == 0 {
+		res = append(res, foreign...)
+	}
+	return res
+}
+
 // logArrivals writes the consequences of a step: rendezvous as one "hand" event, the rest as "arr" events
 func (wd *world) logArrivals(before map[string]string, arrs [][2]string) {
 	at := map[string]string{}
@@ -512,7 +530,7 @@ func runOne(t *testing.T, w *vh.Writer, sc Schedule, seed int64, randomSteps int
 		// 2. seeded random walk
 		kinds := []string{"req", "req", "req", "enc", "plain", "resp", "part"}
 		for step := 0; step < randomSteps; step++ {
-			parked := wd.ctl.Parked()
+			parked := wd.pickable(seed%2 == 0)
 			n := len(parked)
 			pick := wd.rnd.Intn(n + 3)
 			if pick < n {
